@@ -71,12 +71,6 @@ theorem loadTable_result (needPos : Bool) (fs : Str → Option Str) (st : Loaded
 /-- a state whose substitute cache holds `t1`: loading `t1` again, or another file, gives what a fresh process gives -/
 example : CacheOK false exFs (loadTable false exFs .absent "t1".toList).2 :=
   (loadTable_result false exFs .absent "t1".toList trivial).2
-example : toSum (loadTable false exFs (loadTable false exFs .absent "t1".toList).2 "t1".toList).1 =
-      .inr [(1, [(2, "dog".toList, some "N".toList), (1, "the".toList, some "D".toList)]), (2, [(1, "it".toList, none)])] ∧
-    toSum (loadTable false exFs (loadTable false exFs .absent "t1".toList).2 "short".toList).1 =
-      .inr [(1, [(1, "a".toList, none)])] ∧
-    toSum (loadTable true exFs .absent "short".toList).1 = .inl .indexError ∧
-    toSum (loadTable false exFs .absent "nofile".toList).1 = .inl .other := by decide
 
 /-- one call: same result from any reachable state as from the initial state, and the state stays consistent -/
 theorem call_history_independent (fs : Str → Option Str) (st : ProcState) (c : Call) (h : StateOK fs st) :
@@ -118,18 +112,6 @@ theorem history_independent (fs : Str → Option Str) (cs : List Call) :
 
 example : runHistory exFs {} exHist = exHist.map fun c => (c.run exFs {}).1 := history_independent exFs exHist
 
-/-- the example history, evaluated: both `dup` calls raise `ValueError`, the last call repeats the first result -/
-example : (runHistory exFs {} exHist).map view =
-    [.inr [(1, "the".toList, "D".toList), (2, "dog".toList, "N".toList)],
-     .inr [(1, "a".toList, "A".toList), (2, "b".toList, "B".toList), (3, "now".toList, "ADV".toList)],
-     .inl .valueError, .inl .valueError,
-     .inr [(1, "the".toList, "D".toList), (2, "dog".toList, "N".toList)]] := by decide
-/-- and call by call in a fresh process -/
-example : (exHist.map fun c => view (c.run exFs {}).1) =
-    [.inr [(1, "the".toList, "D".toList), (2, "dog".toList, "N".toList)],
-     .inr [(1, "a".toList, "A".toList), (2, "b".toList, "B".toList), (3, "now".toList, "ADV".toList)],
-     .inl .valueError, .inl .valueError,
-     .inr [(1, "the".toList, "D".toList), (2, "dog".toList, "N".toList)]] := by decide
 
 /-- a failed load leaves no trace (the repaired behaviour): a retry gives the same error -/
 theorem failed_load_retry (needPos : Bool) (fs : Str → Option Str) (st : Loaded) (fn : Str) (e : Err)
@@ -139,10 +121,6 @@ theorem failed_load_retry (needPos : Bool) (fs : Str → Option Str) (st : Loade
   obtain ⟨h3, _⟩ := loadTable_result needPos fs _ fn h2
   rw [h3, ← h1, h]
 
-/-- the failing load of `dup` from a state that has `t1` cached -/
-example : toSum (loadTable false exFs (.ok "t1".toList []) "dup".toList).1 = .inl .valueError ∧
-    toSum (loadTable false exFs (loadTable false exFs (.ok "t1".toList []) "dup".toList).2 "dup".toList).1 =
-      .inl .valueError := by decide
 
 /-- a failed load leaves the cache empty -/
 theorem failed_load_state (needPos : Bool) (fs : Str → Option Str) (st : Loaded) (fn : Str) (e : Err)
@@ -196,14 +174,6 @@ def exU : Tree :=
   node { label := "NP".toList }
     [leaf 1 { label := "N".toList, word := some "it".toList }, leaf 2 { label := "ADV".toList, word := some "now".toList }]
 
-example : gramCount (extractAll ([TT.Props.C06.exT] ++ [exU, TT.Props.C06.exT])).1
-      TT.Props.C06.exF TT.Props.C06.exL (.ctx ["S2".toList]) = 2 ∧
-    gramCount (extractAll [TT.Props.C06.exT]).1 TT.Props.C06.exF TT.Props.C06.exL (.ctx ["S2".toList]) = 1 ∧
-    gramCount (extractAll [exU, TT.Props.C06.exT]).1 TT.Props.C06.exF TT.Props.C06.exL (.ctx ["S2".toList]) = 1 := by
-  decide
-example : lexCount (extractAll ([TT.Props.C06.exT] ++ [exU, TT.Props.C06.exT])).2 "it".toList "N".toList = 5 ∧
-    lexCount (extractAll [TT.Props.C06.exT]).2 "it".toList "N".toList = 2 ∧
-    lexCount (extractAll [exU, TT.Props.C06.exT]).2 "it".toList "N".toList = 3 := by decide
 
 /-! ### statistics of a concatenation -/
 
@@ -214,8 +184,6 @@ theorem gapstats_append (s : GapStats) (ts us : List Tree) :
   rw [List.foldl_append, foldl_run_perTree_total us, foldl_run_perTree_total ts]
   exact ⟨rfl, rfl⟩
 
-example : ([TT.Props.C06.exT, exU] ++ [TT.Props.C06.exT]).foldl GapStats.run {} =
-    { perNode := [(1, 4), (0, 3)], perTree := [(1, 2), (0, 1)] } := by decide
 
 /-! ### the export reader is sentence local -/
 
@@ -359,11 +327,6 @@ def ids : Except Err (List (Nat × Tree)) → Err ⊕ List (Nat × Nat)
   | .error e => .inl e
   | .ok r => .inr (r.map fun p => (p.1, p.2.leafNums.length))
 
-example : Complete (lines exA) ∧ sentences (lines exA) = 2 := by decide
-/-- an unfinished sentence is not complete -/
-example : ¬ Complete (lines "#BOS 1\nit\t--\tN\t--\tHD\t0\n".toList) := by decide
-example : ids (readExport {} exA) = .inr [(7, 2), (9, 1)] ∧ ids (readExport {} exB) = .inr [(3, 1)] ∧
-    ids (readExport {} (exA ++ '\n' :: exB)) = .inr [(7, 2), (9, 1), (3, 1)] := by decide
 example : ids (readExport { continuous := true } exA) = .inr [(1, 2), (2, 1)] ∧
     ids (readExport { continuous := true } exB) = .inr [(1, 1)] ∧
     ids (readExport { continuous := true } (exA ++ '\n' :: exB)) = .inr [(1, 2), (2, 1), (3, 1)] := by decide
